@@ -252,9 +252,13 @@ def run_same_variable(rng, obs):
         if others and rng.random() < 0.5:
             return '%s + %s' % (rng.choice(others), repr(rng.choice([0.0, 1.0, -2.5, 3.0])))
         return repr(rng.choice([0.0, 1.0, -2.5, 3.0, 0.5, 1e3, -40.0]))
-    kind = rng.choice(['bound_neq_same', 'bound_neq_same', 'bound_neq_other', 'interval'])
+    kind = rng.choice(['bound_neq_same', 'bound_neq_same', 'bound_neq_other', 'interval', 'bound_two_neq'])
     a = rhs_expr()
-    if kind == 'interval':
+    if kind == 'bound_two_neq':       # two forbidden values, one of them the bound itself: every listing order must steer clear of both
+        b2 = '%s + %s' % (a, repr(rng.choice([1.0, -1.0, 2.5])))
+        lines = [(names[i], '!=', a), (names[i], '!=', b2), (names[i], rng.choice(['>=', '<=']), a)]
+        rng.shuffle(lines)
+    elif kind == 'interval':
         lines = [(names[i], '>=', a), (names[i], '<=', '%s + %s' % (a, repr(rng.choice([0.5, 2.0, 10.0]))))]
     else:
         b = a if kind == 'bound_neq_same' else rhs_expr()
@@ -265,7 +269,10 @@ def run_same_variable(rng, obs):
     env = T.env_of(names, x)
     fs = [T.value(r, env) for _, _, r in lines]
     place = rng.random()
-    if place < 0.3: x[i] = fs[0]                                             # exactly on the (first) right-hand side
+    if kind == 'bound_two_neq':
+        k_ = next(j for j, l in enumerate(lines) if l[1] in ('>=', '<='))
+        if place < 0.8: x[i] = fs[k_] + (-1 if lines[k_][1] == '>=' else 1) * rng.choice([1e-3, 1.0, 50.0]) * max(1.0, abs(fs[k_]))     # outside the bound: clipped onto it
+    elif place < 0.3: x[i] = fs[0]                                             # exactly on the (first) right-hand side
     elif place < 0.65: x[i] = fs[0] + rng.choice([-1, 1]) * rng.choice([1e-3, 1.0, 50.0]) * max(1.0, abs(fs[0]))
     obs.desc = {'text': text, 'variables': variables if isinstance(variables, str) else names, 'n': n, 'x': x, 'kind': kind}
     c = compile_constraint(text, variables, n)
